@@ -808,6 +808,12 @@ def replaceNonesWithNonsense(
                 if realType is type(None):
                     continue
 
+                # use the common numeric type of ALL values rather than the first one's, so that
+                # e.g. [3, None, 3.5] is stored as floats instead of being truncated to ints
+                commonType = np.array([d for d in data if d is not None]).dtype.type
+                if realType is not bool and commonType in NONE_MAP:
+                    realType = commonType
+
                 defaultValue = NONE_MAP[realType]
                 break
         else:
